@@ -217,10 +217,16 @@ impl Index for HnswIndex {
         // Prepare query vector
         let prepared_query = self.prepare_vector(query);
 
+        // A deleted id stays in the graph until the next rebuild/compaction, so it has to be
+        // filtered out of the results here; ask for that many extra candidates so that the
+        // filtering does not eat into the k live results.
+        let tombstones = self.tombstones.read();
+        let n_tombstones = tombstones.len();
+
         // For Manhattan, request more candidates since L2 ordering != L1 ordering.
         // Reranking from a larger candidate set improves recall.
-        let search_k = if is_manhattan { k * 4 } else { k };
-        let raw_results = inner.hnsw.search(&prepared_query, search_k, ef_search);
+        let search_k = if is_manhattan { k * 4 } else { k } + n_tombstones;
+        let raw_results = inner.hnsw.search(&prepared_query, search_k, ef_search.max(search_k));
 
         // Map internal indices to tuple IDs using the stored mapping
         let mut results: Vec<(TupleId, f64)> = if is_manhattan {
@@ -261,6 +267,11 @@ impl Index for HnswIndex {
                 })
                 .collect()
         };
+
+        // Deleted ids are not results
+        if n_tombstones > 0 {
+            results.retain(|(id, _)| !tombstones.contains(id));
+        }
 
         // Sort by distance and take top-k (important for Manhattan reranking)
         results.sort_by(|a, b| a.1.partial_cmp(&b.1).unwrap_or(std::cmp::Ordering::Equal));
